@@ -188,6 +188,11 @@ func (l *Lexer) Next() (TokenType, []byte) {
 		if l.consumeCDCToken() {
 			return CDCToken, l.r.Shift()
 		} else if l.consumeCustomVariableToken() {
+			if l.r.Peek(0) == '(' {
+				// an identifier directly followed by a parenthesis is a function, also when it starts with two dashes
+				l.r.Move(1)
+				return FunctionToken, l.r.Shift()
+			}
 			return CustomPropertyNameToken, l.r.Shift()
 		} else if t := l.consumeIdentlike(); t != ErrorToken {
 			return t, l.r.Shift()
